@@ -13,6 +13,6 @@ json.dump({"property":P,"id":f"{P}-{L}","breaks":P,"needs_to_manifest":NEEDS,
  "confirmed":"tools/seed_confirm2.sh: demo passes on the clean tree (exit 0), the 116 tests pass with the patch, demo fails with the patch (exit 1)",
  "ran":f"git -C /repo apply /verif/seeded/{P}-{L}/patch.diff; ./check {P}; git -C /repo checkout -- .",
  "applies_to":head,
- "result":RES, "author":"independent sub-agent given only the property text and a scratch worktree (second round)"},
+ "result":RES, "author":"independent sub-agent given only the property text and a scratch worktree (round given by the tag of the sub-agent run)"},
  open(f"/verif/seeded/{P}-{L}/meta.json","w"),indent=1)
 PY
